@@ -22,13 +22,17 @@
 (***************************************************************************)
 EXTENDS Replication, TLCExt
 
-CONSTANTS TraceFile, MaxSilent
+CONSTANTS TraceFile, MaxSilent,
+          NoProgressK   \* see TInvProgressAfterFailures (same constant in harness/repl/oracle.go)
 
 VARIABLES i,       \* index of the next event to explain
           silent,  \* silent steps taken since the last event
-          pend     \* [op, tag]: operation called but not begun (op) and tag of the last operation called
+          pend,    \* [op, tag]: operation called but not begun (op) and tag of the last operation called
+          streak   \* [e, n]: the last n Accept events of pipeline instance e were refusals of a HEALTHY
+                   \*   exporter (event name "ctx": not charged to the scenario's failure budget), with no
+                   \*   accepted batch since
 
-tvars == <<i, silent, pend>>
+tvars == <<i, silent, pend, streak>>
 allvars == <<vars, tvars>>
 
 TraceLog == ndJsonDeserialize(TraceFile)
@@ -39,11 +43,13 @@ Range(a, b) == [k \in 1..(b - a + 1) |-> a + k - 1]
 
 Ev == TraceLog[i]
 IsEv(k) == i <= Len(TraceLog) /\ TraceLog[i].k = k
-Consume == i' = i + 1 /\ silent' = 0
+ConsumeS(s) == i' = i + 1 /\ silent' = 0 /\ streak' = s
+Consume == ConsumeS(streak)
+NoStreak == [e |-> 0, n |-> 0]
 
 TraceInit ==
     /\ Init
-    /\ i = 1 /\ silent = 0 /\ pend = NoPend
+    /\ i = 1 /\ silent = 0 /\ pend = NoPend /\ streak = NoStreak
     /\ TLCSet(1, 0)
 
 (* A new scenario starts: fresh world.                                      *)
@@ -57,7 +63,7 @@ T_Begin ==
     /\ gotEver' = {} /\ gotSince' = {} /\ contig' = TRUE /\ startOK' = TRUE
     /\ hist' = << >>
     /\ pend' = NoPend
-    /\ Consume
+    /\ ConsumeS(NoStreak)
 
 T_Produce ==
     /\ IsEv("Produce")
@@ -123,7 +129,11 @@ T_Accept ==
        \/ /\ Ev.ep \in DOMAIN ep /\ ep[Ev.ep].late
           /\ Ev.ids = Range(ep[Ev.ep].lfrom, ep[Ev.ep].lto)
           /\ IF Ev.ok THEN LateAcceptOK(Ev.ep) ELSE LateAcceptFail(Ev.ep)
-    /\ UNCHANGED pend /\ Consume
+    /\ UNCHANGED pend
+    /\ ConsumeS(IF Ev.ok THEN [e |-> Ev.ep, n |-> 0]
+                ELSE IF Ev.name # "ctx" THEN streak
+                ELSE IF streak.e = Ev.ep THEN [e |-> Ev.ep, n |-> streak.n + 1]
+                ELSE [e |-> Ev.ep, n |-> 1])
 
 T_Store ==
     /\ IsEv("Store")
@@ -139,7 +149,7 @@ Logged ==
 Silent ==
     /\ i <= Len(TraceLog)
     /\ silent < MaxSilent
-    /\ silent' = silent + 1 /\ i' = i
+    /\ silent' = silent + 1 /\ i' = i /\ streak' = streak
     /\ \/ (pend.op = "stop" /\ MgrStopBegin /\ Begun)
        \/ (pend.op = "reset" /\ MgrResetBegin /\ Begun)
        \/ (pend.op = "shutdown" /\ MgrShutdownBegin /\ Begun)
@@ -169,5 +179,18 @@ TInvStartPos == Tag("InvStartPos", InvStartPos)
 TInvPersistedLeAcked == Tag("InvPersistedLeAcked", InvPersistedLeAcked)
 TInvPersistedLeAckedSinceReset == Tag("InvPersistedLeAckedSinceReset", InvPersistedLeAckedSinceReset)
 TInvLastLeAcked == Tag("InvLastLeAcked", InvLastLeAcked)
+
+(* Count-based form of the liveness property on a finite trace ("every log is       *)
+(* delivered despite failures").  In Replication.tla ExpAcceptFail is only enabled   *)
+(* while the failure budget lasts (nFail < MaxFail) and ExpAcceptOK is weakly fair:   *)
+(* beyond the budget the next attempt succeeds.  The harness charges its scripted     *)
+(* failures to the budget (event name "plan"/"down"/"forced"); a refusal named "ctx"  *)
+(* comes from a healthy exporter that honours the context it is given (as             *)
+(* drivers.Batcher does) and found it already cancelled.  That happens once to a      *)
+(* pipeline instance that is being stopped; NoProgressK in a row for one instance,    *)
+(* with no accepted batch in between, means the pipeline no longer makes progress     *)
+(* although nothing fails.  Attempts are counted, never time.                         *)
+InvProgressAfterFailures == streak.n < NoProgressK
+TInvProgressAfterFailures == Tag("InvProgressAfterFailures", InvProgressAfterFailures)
 
 =============================================================================
